@@ -292,8 +292,9 @@ of `DistributedExecutionOptimizer.Optimize` (`traverseBottomUp` with its early s
 real optimizer by the `distplan` oracle); `Sem.eval` gives `remote i e` the meaning "evaluate `e`
 over what engine `i` stores" and `coalesce` "the children's vectors one after the other". For
 every expression in `siteOk` (calls with at most one argument, or up to three with a literal
-among them - `clamp_min(x, 1)`, `histogram_quantile(0.9, x)` -, no `timestamp`; distributive
-aggregations among sum/min/max/group/count), any number of remote engines with any partition of
+among them - `clamp_min(x, 1)`, `histogram_quantile(0.9, x)` -, `timestamp` included: below it
+a selector is walked through untouched, so it still reads the samples' own timestamps, per
+partition; distributive aggregations among sum/min/max/group/count), any number of remote engines with any partition of
 the series (the local storage being their union, as in the repository's tests), the duplicate
 check off as in the engine, and a value algebra with the order laws of IEEE comparison, an
 associative addition and an additive `ofInt`: at every step the rewritten plan has exactly the
@@ -321,6 +322,16 @@ example :
     let h : VSel := { matchers := [⟨.eq, "__name__", "h_bucket"⟩], origOffset := 0, atTs := none }
     siteOk (.call "histogram_quantile" [.stepInv (.num (9 : Int)), .agg "sum" false ["le"] (.call "rate" [.msel h 300000])])
       = true := rfl
+
+/-- `max(timestamp(m))` is in `siteOk`, and the selector below `timestamp` stays a selector inside
+every remote query -/
+example :
+    let m : Expr Int := .vsel { matchers := [⟨.eq, "__name__", "m"⟩], origOffset := 0, atTs := none }
+    siteOk (.agg "max" false [] (.call "timestamp" [m])) = true ∧
+    optDistribute 2 (.agg "max" false [] (.call "timestamp" [m]))
+      = some (.agg "max" false [] (.coalesce [.remote 0 (.agg "max" false [] (.call "timestamp" [m])),
+                                               .remote 1 (.agg "max" false [] (.call "timestamp" [m]))])) := by
+  exact ⟨rfl, rfl⟩
 
 /-- a plan the theorem applies to: `sum by (a) (abs(m))` over two engines becomes
 `sum by (a) (coalesce(remote 0 (sum ..), remote 1 (sum ..)))` -/
